@@ -1,6 +1,7 @@
 package main
 
 import (
+	"sync/atomic"
 	"context"
 	"errors"
 	"fmt"
@@ -22,7 +23,11 @@ import (
 const svc = "/sc.go.test.TestApi/"
 
 var opTimeout = 3 * time.Second
-var deadlineAfter = 250 * time.Millisecond
+var deadlineAfter = 400 * time.Millisecond
+
+// after a few ops that hung for the full bound the hang is established: later waits are kept short so
+// that a broken tree is reported in minutes, not hours
+var hangs atomic.Int32
 
 type shapeInfo struct {
 	method string
@@ -80,6 +85,7 @@ type outcome struct {
 	client   []string
 	server   string
 	timedOut bool
+	skip     bool // the machine was too slow for a deadline script: nothing is concluded
 	leak     int // goroutines above the baseline after the call (wrapper only)
 	call     *call
 	sentReq  []proto.Message // client's own request objects
@@ -90,12 +96,16 @@ func (o outcome) text() string { return strings.Join(o.client, ",") + "|" + o.se
 
 // within runs f with a bound; false = did not return in time.
 func within(d time.Duration, f func()) bool {
+	if hangs.Load() >= 3 {
+		d = 300 * time.Millisecond
+	}
 	done := make(chan struct{})
 	go func() { defer close(done); f() }()
 	select {
 	case <-done:
 		return true
 	case <-time.After(d):
+		hangs.Add(1)
 		return false
 	}
 }
@@ -271,10 +281,21 @@ func runCase(cc grpc.ClientConnInterface, srv *scripted, c scase, measureLeak bo
 				}
 				ev(e)
 				if e == "slow" {
-					out.timedOut = true
+					out.skip = true
 					break loop
 				}
 			}
+		}
+	}
+	if hasDeadline {
+		reached := false
+		for _, e := range out.client {
+			if e == "d" {
+				reached = true
+			}
+		}
+		if !reached {
+			out.skip = true
 		}
 	}
 	close(cl.gate)
